@@ -9,6 +9,8 @@ pub mod c06;
 #[cfg(kani)]
 pub mod c20;
 #[cfg(kani)]
+pub mod c11;
+#[cfg(kani)]
 pub mod c15;
 #[cfg(kani)]
 pub mod c04;
